@@ -40,6 +40,11 @@
 (***************************************************************************)
 EXTENDS FamilyDefs
 
+\* src/pest/stack.py as pure functions (the delta encoding that C09 relates to full copies): the machine carries the user
+\* stack a second time in that encoding (register dstk), driven by exactly the calls the interpreter makes, and DeltaAgrees
+\* requires both to show the same contents in every state - C09's refinement, on every history a parse can drive (C05)
+D == INSTANCE DeltaOps
+
 VARIABLES g, inp, k,    \* the case: grammar, input, start position (constant along a behaviour)
           m             \* the machine: a record of registers (below)
 
@@ -52,14 +57,19 @@ ButLast(s) == SubSeq(s, 1, Len(s) - 1)
 \* ---- event log (after-state of the registers that state.py checkpoints) ----
 Log(x, op) == [x EXCEPT !.tr = Append(@, [op |-> op, pos |-> x.pos, ustk |-> x.ustk, rdepth |-> Len(x.rstk), adepth |-> x.adepth])]
 
+RECURSIVE PopN(_, _)
+PopN(d, n) == IF n = 0 THEN d ELSE PopN(D!PopF(d), n - 1)
+
 \* ---- state.py: checkpoint / ok / restore ------------------------------------
 Checkpoint(x) ==
   Log([x EXCEPT !.usnaps = Append(@, x.ustk), !.rsnaps = Append(@, x.rstk),
-                !.asnaps = Append(@, x.adepth), !.poshist = Append(@, x.pos)], "checkpoint")
+                !.asnaps = Append(@, x.adepth), !.poshist = Append(@, x.pos),
+                !.dstk = D!SnapshotF(@)], "checkpoint")
 Commit(x) ==
-  Log([x EXCEPT !.usnaps = ButLast(@), !.rsnaps = ButLast(@), !.asnaps = ButLast(@), !.poshist = ButLast(@)], "ok")
+  Log([x EXCEPT !.usnaps = ButLast(@), !.rsnaps = ButLast(@), !.asnaps = ButLast(@), !.poshist = ButLast(@),
+                !.dstk = D!DropF(@)], "ok")
 Restore(x) ==
-  Log([x EXCEPT !.ustk = TopOf(x.usnaps), !.usnaps = ButLast(@),
+  Log([x EXCEPT !.ustk = TopOf(x.usnaps), !.usnaps = ButLast(@), !.dstk = D!RestoreF(@),
                 !.rstk = TopOf(x.rsnaps), !.rsnaps = ButLast(@),
                 !.adepth = TopOf(x.asnaps), !.asnaps = ButLast(@),
                 !.pos = TopOf(x.poshist), !.poshist = ButLast(@)], "restore")
@@ -145,19 +155,22 @@ EvalStep(x, e) ==
     [] e.k = "not"   -> Replace([NewBuf(Checkpoint(x)) EXCEPT !.negd = @ + 1], <<[f |-> "not"], EvalF(e.e)>>)
     [] e.k = "tag"   -> Replace(x, <<EvalF(e.e)>>)
     \* stack terminals (terminals.py)
-    [] e.k = "pushlit" -> Return([x EXCEPT !.ustk = Append(@, e.s)], "ok")
+    [] e.k = "pushlit" -> Return([x EXCEPT !.ustk = Append(@, e.s), !.dstk = D!PushF(@, e.s)], "ok")
     [] e.k = "push"  -> Replace(NewBuf(x), <<[f |-> "push", start |-> P], EvalF(e.e)>>)
     [] e.k = "peek"  -> IF S = <<>> THEN Return(x, "fail") ELSE Term(x, MatchesAt(inp, P, TopOf(S)), Len(TopOf(S)))
     [] e.k = "pop"   -> IF S = <<>> THEN Return(x, "fail")
                         ELSE IF ~MatchesAt(inp, P, TopOf(S)) THEN Return(Record(x), "fail")
-                        ELSE Return([x EXCEPT !.pos = P + Len(TopOf(S)), !.ustk = ButLast(S)], "ok")
-    [] e.k = "drop"  -> IF S = <<>> THEN Return(Record(x), "fail") ELSE Return([x EXCEPT !.ustk = ButLast(S)], "ok")
+                        ELSE Return([x EXCEPT !.pos = P + Len(TopOf(S)), !.ustk = ButLast(S), !.dstk = D!PopF(@)], "ok")
+    [] e.k = "drop"  -> IF S = <<>> THEN Return(Record(x), "fail") ELSE Return([x EXCEPT !.ustk = ButLast(S), !.dstk = D!PopF(@)], "ok")
     [] e.k = "peekall" -> LET s == Concat(Rev(S)) IN Term(x, MatchesAt(inp, P, s), Len(s))
     \* PopAll takes its own checkpoint, pops entry by entry, and restores on the first mismatch
     [] e.k = "popall"  -> LET s == Concat(Rev(S))
                               x1 == Checkpoint(x)
-                          IN IF MatchesAt(inp, P, s) THEN Return([Commit([x1 EXCEPT !.ustk = <<>>]) EXCEPT !.pos = P + Len(s)], "ok")
-                             ELSE Return(Record(Restore(x1)), "fail")
+                              \* entries popped before the mismatch is noticed: the matching ones and the one that does not match
+                              npop == CHOOSE n \in 1..Len(S) : /\ ~MatchesAt(inp, P, Concat(Rev(SubSeq(S, Len(S) - n + 1, Len(S)))))
+                                                               /\ \A j \in 1..(n - 1) : MatchesAt(inp, P, Concat(Rev(SubSeq(S, Len(S) - j + 1, Len(S)))))
+                          IN IF MatchesAt(inp, P, s) THEN Return([Commit([x1 EXCEPT !.ustk = <<>>, !.dstk = D!ClearF(@)]) EXCEPT !.pos = P + Len(s)], "ok")
+                             ELSE Return(Record(Restore([x1 EXCEPT !.dstk = PopN(@, npop)])), "fail")
     [] e.k = "peekslice" -> LET s == Concat(SliceOf(S, e.ha, e.a, e.hb, e.b)) IN Term(x, MatchesAt(inp, P, s), Len(s))
 
 \* ---- a sub-parse returned into frame F (x.ret is "ok" or "fail") -------------
@@ -187,7 +200,8 @@ ReturnStep(x, F) ==
                            x2 == IF ok THEN RecordForced(x1) ELSE x1
                        IN Return([x2 EXCEPT !.negd = @ - 1], IF ok THEN "fail" ELSE "ok")
     \* terminals.py: Push - no restore on failure
-    [] F.f = "push" -> IF ok THEN Return(MergeBuf([x EXCEPT !.ustk = Append(@, SubSeq(inp, F.start + 1, x.pos))]), "ok")
+    [] F.f = "push" -> IF ok THEN LET v == SubSeq(inp, F.start + 1, x.pos)
+                                  IN Return(MergeBuf([x EXCEPT !.ustk = Append(@, v), !.dstk = D!PushF(@, v)]), "ok")
                        ELSE Return(DropBuf(x), "fail")
     \* state.py: parse_trivia - WHITESPACE matched: again; else COMMENT matched: again; else stop
     [] F.f = "trivia" -> IF ok THEN Replace(MergeBuf(Commit(x)), <<[F EXCEPT !.ph = "start"]>>)
@@ -216,7 +230,8 @@ M0 == [ctl |-> <<EvalF(Ref("r"))>>, ret |-> "none",
        pos |-> k, ustk |-> <<>>, rstk |-> <<>>, adepth |-> 0,
        usnaps |-> <<>>, rsnaps |-> <<>>, asnaps |-> <<>>, poshist |-> <<>>,
        bufs |-> << <<>> >>, tr |-> <<>>,
-       fp |-> -1, negd |-> 0, supp |-> FALSE]
+       fp |-> -1, negd |-> 0, supp |-> FALSE,
+       dstk |-> D!St(<<>>, <<>>, <<>>)]
 
 Init == /\ g \in Pick(Grammars)
         /\ inp \in Inputs
@@ -258,6 +273,11 @@ RestoreExact ==
        tr[j].op = "restore" =>
          LET cp == tr[Back(j - 1, 0)]
          IN tr[j].pos = cp.pos /\ tr[j].ustk = cp.ustk /\ tr[j].rdepth = cp.rdepth /\ tr[j].adepth = cp.adepth
+
+\* the delta-encoded stack shows what the full copies show, in every state of every parse; nothing is left in its rewind log
+DeltaAgrees == /\ m.dstk.items = m.ustk
+               /\ Len(m.dstk.lengths) = Len(m.usnaps)
+               /\ Halted => (m.dstk.popped = <<>> /\ m.dstk.lengths = <<>>)
 
 \* C13 on the design: what a failed parse() reports as furthest position
 FurthestInRange == /\ m.fp = -1 \/ (k <= m.fp /\ m.fp <= Len(inp))
